@@ -112,7 +112,22 @@ func (_this *Session) GetIteratorForType(t reflect.Type) IteratorFunction {
 		return storedIterator.(IteratorFunction)
 	}
 
+	completed := false
+	defer func() {
+		if !completed {
+			// Generation failed (unsupported type): do not leave the placeholder
+			// behind, and make anyone waiting on it fail the same way instead of
+			// waiting forever.
+			err := recover()
+			_this.iteratorFuncs.Delete(t)
+			iterator = func(*Context, reflect.Value) { panic(err) }
+			wg.Done()
+			panic(err)
+		}
+	}()
+
 	iterator = _this.getDefaultIteratorForType(t)
+	completed = true
 	wg.Done()
 	_this.iteratorFuncs.Store(t, iterator)
 	return iterator
